@@ -260,6 +260,13 @@ def must_pass_guard(ctx, rid, body, sink_blocks, guard_pred, guard_name, sink_na
         ok = fv.must_pass(sb, edges) and bool(edges)
         if sb not in fv.live_blocks():
             ok = True
+        if not ok:
+            # `return guard(..).map_err(..)`: the function's result *is* the guard's result
+            for r in fv.return_sites():
+                if r["block"] == sb and "call" in r:
+                    e = fv._call_expr(r["call"], 0)
+                    if e[0] == "call" and guard_pred(e[1]):
+                        ok = True
         wit = None
         if not ok:
             p = fv.path(0, sb, cut_edges=edges)
